@@ -111,6 +111,11 @@ def monitor(lines, impl, which):
         if w[0] == "proc" and len(w) >= 3 and ret == "ok":
             where[w[1]] = w[2]          # the node the process was (re-)created on
         if ret == "obs":
+            for l in entries:
+                if l.startswith("Nd ") and " api=0" in l:
+                    return ("a System-level accessor (node_is_crashed, proc_node_is_crashed, proc_node_name, sent_message_count, "
+                            "received_message_count, local_outbox, event_log, process_names) disagrees with the node-level accessor it "
+                            f"is documented to delegate to: {l}")
             if which == "C07":
                 # the timer contract judged on each process's event log: requested operations and firings in order
                 for l in entries:
